@@ -323,6 +323,16 @@ func (fr *Frame) execBlock(b *ssa.BasicBlock, skip int, reach T, st *State) {
 			fr.defers = append(fr.defers, &deferRec{instr: x, armed: armed})
 			ex.set(st, armed, tTrue)
 		case *ssa.Go:
+			// ghost hooks see the spawn as a call site (arguments only)
+			{
+				bind := map[string]Val{}
+				for i, a := range x.Call.Args {
+					if _, isLV := fr.lvals[a]; !isLV {
+						bind[fmt.Sprintf("arg%d", i)] = Val{t: fr.val(a), typ: a.Type()}
+					}
+				}
+				fr.ghostAt("call", fr.callOrd[x], fr.callName[x], "before", reach, st, bind)
+			}
 			// sequentialised: a spawn has no effect at the spawn site (DESIGN §2.3 rule 4)
 			ex.abstractions["go statement at "+ex.pos(x.Pos())+": spawned call not executed at the spawn site"] = true
 		case *ssa.If:
@@ -801,7 +811,7 @@ func (fr *Frame) next(x *ssa.Next, reach T, st *State) {
 	k := ex.freshOfType(fr.vname(x)+"_k", mt.Key(), reach, st)
 	visName := fmt.Sprintf("Visited$f%d$%s", fr.id, rng.Name())
 	vis := ex.get(st, visName)
-	hasRow := sel(ex.get(st, has), m)
+	hasRow := ex.define("hasrow", sel(ex.get(st, has), m))
 	ex.assume(reach, implies(ok, and(not(eq(m, tNil)), sel(hasRow, k), not(sel(vis, k)))))
 	// when the iteration ends every key present has been visited
 	ks := ex.sorts.sortOf(mt.Key())
